@@ -15,6 +15,7 @@ import (
 	"os"
 	"os/exec"
 	"path/filepath"
+	"strconv"
 	"strings"
 	"sync"
 	"time"
@@ -212,6 +213,9 @@ func runCases(c *lib.Ctx, name string, cases []casePlan, par int, perWorkerTimeo
 	}
 	if len(cases) == 0 {
 		return
+	}
+	if v, err := strconv.Atoi(os.Getenv("QV_STORES_PAR")); err == nil && v > 0 {
+		par = v // tuning knob for slow or shared machines; results do not depend on it
 	}
 	if par > len(cases) {
 		par = len(cases)
